@@ -162,7 +162,16 @@ def chkC11 (tb : Tabs) (m' : Mon) (r : StepRec) : Bool :=
   (!m'.clean || (r.after.sc.ecc == m'.ecc.vis && r.after.sc.country == m'.country.vis))
 
 /-! ## C17: settings -/
-def chkC17 (m' : Mon) (r : StepRec) : Bool := r.after.set == m'.set
+/-- the three setters of the settings C17 speaks about -/
+def Op.isSetter : Op → Bool
+  | .setExt _ | .setCorr _ _ _ | .setProg _ _ => true
+  | _ => false
+
+def chkC17 (m' : Mon) (r : StepRec) : Bool :=
+  r.after.set == m'.set &&
+  -- "writing one key never changes … any decoded data": a setter leaves every getter-visible value other than the settings
+  -- as it was and fires no callback
+  (!r.op.isSetter || (({ r.after with set := r.before.set } : Obs) == r.before && r.evs.isEmpty))
 
 /-! ## C02 / C06 / C08: every cell of every text after a call -/
 
